@@ -54,10 +54,12 @@ def run_property(pid: str, tier: str, root: str, seed: int, quiet=False, write=T
     t0 = time.time()
     mod = prop_module(pid)
     ctx = ctx or Ctx(root)
-    if ctx.M.reflection_unknown:
-        raise AnalysisError("new reflective access in scope: " + "; ".join(ctx.M.reflection_unknown))
     known = R.load_known()
     out = R.evaluate(pid, tier, mod.SPECS, ctx, known)
+    if ctx.M.reflection_unknown:
+        # the model does not follow reflective access it has not been told about: no PASS may be reported, but a violation
+        # that the rules decide anyway is still a violation (it takes precedence in the exit code)
+        out.errors.append("new reflective access in scope (not modelled): " + "; ".join(ctx.M.reflection_unknown))
     if tier == "thorough" and hasattr(mod, "thorough"):
         try:
             mod.thorough(ctx, out, seed)
